@@ -198,6 +198,7 @@ class HDict:
         self.open = open_
         self.label = label
         self.sym_items: List[Tuple[Value, Value]] = []  # stores under non-constant keys
+        self.value_kind: Optional[str] = None  # kind of the values of an open dict (e.g. 'str' for response headers)
 
     def __repr__(self):
         return "{" + ", ".join(f"{k!r}: {v!r}" for k, v in self.items.items()) + (", ..." if self.open else "") + \
